@@ -138,6 +138,11 @@ def translate(compute_src):
     for short, nm in FUNCS:
         emit_function(short, G.find(ct, "ShortIntegrationFrameComputer", nm), out)
         out.append("")
+    cls = "ShortIntegrationFrameComputer"
+    out.append("Definition g_si_xbuf_is_f64_alloc_once : bool := %s." % str(G.alloc_fact(
+        ct, cls, "_x_buf", "np.empty(self._dft_size, dtype=np.float64)")).lower())
+    out.append("Definition g_si_ybuf_is_f64_alloc_once : bool := %s." % str(G.alloc_fact(
+        ct, cls, "_y_buf", "np.empty((y_blocks, 2, len(self._filts)), dtype=np.float64)")).lower())
     return "\n".join(out) + "\n"
 
 
